@@ -8,6 +8,8 @@ from .. import fields, paths
 from ..core import FUNC, call_attr, calls_in, const, dotted, is_const, kwarg, norm, slice_parts, text, walk_local
 
 EXPLANATION = [
+    'C10.sdu-boundary: (shared with C12) LeCreditBasedChannel.process_output closes the SDU it is assembling as soon as one queued packet has been consumed entirely: two ATT PDUs written on an enhanced bearer never share an SDU.',
+    "C10.identity: no `is` / `is not` comparison in the anchored modules has an operand declared as a number, byte string or string (identity of equal integers holds only inside CPython's small-integer cache, so such a test is right for values up to 256 and wrong afterwards).",
     'C10.uuid-wire: sizes and bytes of UUIDs in ATT PDUs are taken from to_pdu_bytes(), never bytes(uuid) (same rule as C12.uuid-wire): the space accounting of a response counts what is actually written (32-bit UUIDs expand to 128 bits).',
     'C10.parse-guard: every site that hands received bytes to the server dispatcher parses them inside try/except whose handler sends, for an opcode in ATT_REQUESTS only, an Error Response naming that opcode (Invalid PDU); the fixed ATT channel and the EATT sink both enter through it.',
     'C10.accessor-contained: in Attribute.read_value/write_value every call of an application value accessor (and the await of its result) and of the adapters\' value codecs (decode_value of what the peer wrote, encode_value of what is read) is inside try/except Exception that re-raises as ATT_Error, which is what makes "handlers only see ATT_Error" true for C10.once.',
